@@ -38,6 +38,12 @@ ROUTER_RULE = ("2-4 concurrent sessions on ONE real RouterHandler (buffer 1/2/3/
                "connection is flushed with a private barrier subscription + barrier event travelling FIFO through its queue, so what each connection received for that EVENT is known without "
                "timeouts; a connection that stopped reading is judged when it resumes; built with -race; non-trivial = every history; distinct = distinct output line")
 
+SQLITE_RULE = ("batch histories through the real insertEvents/queryEvent (verif exports) on a real SQLite database (mattn/go-sqlite3): 3-10 batches of 1-8 events per history from a small universe (3 authors, "
+               "all kind classes, new versions at -1/0/+1 s, duplicates, deletion requests by id and address before/after their targets incl. 3-element and 1-element tags, Unicode / NUL / quote content, "
+               "created_at 0, negative and beyond 2^32), after every batch 1-4 filter lists (empty list, match-all, limit 0/1/2/3/5/100, ids/authors/kinds incl. empty value lists, 1-2 #x conditions incl. "
+               "names differing only in case, since/until, overlapping filters); C14 stream: file database, a driver wrapper failing at a chosen call index (begin, each prepare, each exec, commit), "
+               "retries, the same batch twice, close/reopen between batches; non-trivial = every batch and query; distinct = distinct output line")
+
 PROPS = {
     "C02": {
         "lean_modules": ["MocProps.C02"],
@@ -204,6 +210,36 @@ PROPS = {
                       "model and the race detector watches the run.",
         "level_note": "Trusted: Lean kernel + standard axioms; harness/driver; the Go race detector; sync.RWMutex. Real thread interleavings are sampled, not enumerated.",
         "assumptions": ["logical-clock stamps bracket the cache call (the handler path adds a barrier COUNT that touches no cache state)"],
+    },
+    "C06": {
+        "lean_modules": ["MocProps.C06"], "theorem_files": ["MocProps/C06.lean"],
+        "gen_groups": ["Sqlite", "Cache", "Matcher"], "harness_prop": "sqlite", "driver_prop": "sqlite", "stateful": True,
+        "monitors": ["answer"],
+        "n_quick": 6000, "n_thorough": 60000, "thorough_seeds": 3,
+        "rule": SQLITE_RULE,
+        "level_text": "Partial by construction: the theorems are about a hand model of the SQL text (pinned), tied to SQLite/goqu/database-sql behaviour by the correspondence on a real database. "
+                      "Proved on the model: a row with a tombstone by key or id of the same author matches no filter (hidden_row_never_matches, hidden_iff); the upsert replaces a stored row only by a "
+                      "different, strictly newer event of a replaceable/addressable kind (upsert_replaces_iff); ephemeral events are never stored (ephemeral_not_stored); a skipped event changes "
+                      "no table and a fresh one appends row, payload and tag rows (insertOne_noop, insertOne_fresh); a limit-0 filter contributes nothing (limit_zero_contributes_nothing). "
+                      "Runtime-validated: every answer of the real database is judged, after every batch, both against the model's tables and against the history-based statement "
+                      "(newest version per address, deletions by id/address of the same author in either arrival order, per-filter top-limit with ties, merged, distinct, non-increasing, "
+                      "seven fields intact).",
+        "level_note": "Trusted: Lean kernel + standard axioms; go2lean; harness/driver; SQLite, goqu, database/sql, mattn/go-sqlite3; xxHash32/MD5 collision-freeness on the generated universe.",
+        "assumptions": ["ids are injective (equal id implies equal event)", "a-tag references are claimed for addressable events only", "which of several versions with equal newest created_at is kept is not constrained",
+                        "upper-case hex in deletion e-tags is not generated"],
+    },
+    "C14": {
+        "lean_modules": ["MocProps.C14"], "theorem_files": ["MocProps/C14.lean"],
+        "gen_groups": ["Sqlite", "Cache", "Matcher"], "harness_prop": "sqlitefault", "driver_prop": "sqlite", "stateful": True,
+        "monitors": ["answer"],
+        "n_quick": 3000, "n_thorough": 30000, "thorough_seeds": 3,
+        "rule": SQLITE_RULE,
+        "level_text": "Partial: atomicity and persistence are properties of SQLite transactions and files; in the model a failed batch and a reopen are the identity by definition "
+                      "(failed_batch_is_identity, retry_after_failure) and the fault-injecting correspondence checks that the real database behaves so: after a batch that failed at any driver call "
+                      "index every query is answered as before, a retried or repeated batch gives the answers of one successful insertion, and answers survive close/reopen (same hash seed), "
+                      "including replacement and deletion across the restart.",
+        "level_note": "Trusted: Lean kernel + standard axioms; go2lean; harness/driver incl. the fault-injecting driver wrapper (a failing commit rolls the transaction back, as SQLite's aborting errors do); SQLite's journal.",
+        "assumptions": ["faults are injected at driver-call granularity, not inside SQLite (no torn pages, no power loss)"],
     },
     "C07": {
         "lean_modules": ["MocProps.C07"], "theorem_files": ["MocProps/C07.lean"],
